@@ -1131,7 +1131,7 @@ pub fn gen(seed: u64, thorough: bool) -> Vec<String> {
     let formats = all_formats();
 
     // ---- (a1) every u32 header word of every template at 0 / 1 / 2^k / 2^k-1 / MAX
-    let n_t = if thorough { tmpl.len() } else { 7 };
+    let n_t = if thorough { tmpl.len() } else { 12 };
     for h in tmpl.iter().take(n_t) {
         let file = file_of(h);
         for i in 0..file.len() / 4 {
@@ -1294,7 +1294,7 @@ pub fn gen(seed: u64, thorough: bool) -> Vec<String> {
     }
 
     // ---- (a7) random multi-field headers
-    let n_rand = if thorough { 1_500_000 } else { 12_000 };
+    let n_rand = if thorough { 1_500_000 } else { 100_000 };
     for i in 0..n_rand {
         let h = &tmpl[i % tmpl.len()];
         let mut f = file_of(h);
@@ -1318,13 +1318,13 @@ pub fn gen(seed: u64, thorough: bool) -> Vec<String> {
     }
 
     // ---- (b) byte level mutations of valid small files, (c) truncations / extensions, (d) options
-    let n_files = if thorough { 300 } else { 10 };
+    let n_files = if thorough { 300 } else { 30 };
     let mut small_files: Vec<(Vec<u8>, u64, usize)> = vec![]; // header image, data length, colour
     for i in 0..n_files {
         let (_, f) = formats[(i * 7) % formats.len()];
         let h = if i < tmpl.len() && i % 2 == 0 { tmpl[i].clone() } else { small_header(&mut g.rng, f) };
         if let Some(dl) = data_len_of(&h) {
-            if dl <= 6000 {
+            if dl <= (if thorough { 1350 } else { 6000 }) {
                 small_files.push((file_of(&h), dl, i % 12));
             }
         }
@@ -1400,7 +1400,7 @@ pub fn gen(seed: u64, thorough: bool) -> Vec<String> {
             }
         }
         // (f) a fault at every byte of the file (hard error, EOF, Interrupted)
-        let fstep = if thorough || total < 300 { 1 } else { 1 + total / 300 };
+        let fstep = if (thorough && fi < 60) || total < 300 { 1 } else { 1 + total / (if thorough { 100 } else { 300 }) };
         let mut k = 0u64;
         while k <= total {
             for m in ["h", "e", "i"] {
@@ -1415,7 +1415,7 @@ pub fn gen(seed: u64, thorough: bool) -> Vec<String> {
     }
 
     // ---- (e) decode scenarios: every format, small surfaces, every colour x memory limit, random operations
-    let n_sc = if thorough { 40 } else { 8 };
+    let n_sc = if thorough { 150 } else { 25 };
     for (fi, (_, f)) in formats.iter().enumerate() {
         for s in 0..n_sc {
             let h = small_header(&mut g.rng, *f);
@@ -1490,7 +1490,7 @@ pub fn gen(seed: u64, thorough: bool) -> Vec<String> {
 
     // ---- (f2) a transient end of file inside plane 1 / a line of a surface, file longer than the surface
     for (fi, (_, f)) in formats.iter().enumerate() {
-        for s in 0..(if thorough { 12 } else { 2 }) {
+        for s in 0..(if thorough { 40 } else { 6 }) {
             let w = g.rng.range(1, 12) as u32;
             let hh = g.rng.range(1, 12) as u32;
             let h0 = Header::new_image(w, hh, *f);
